@@ -172,6 +172,9 @@ func c09(c *Ctx) {
 		rng := c.Rng(i)
 		class := classFor(i, rng, tallEvery)
 		mode := modeFor(i, rng)
+		if class == "huge" {
+			mode = hugeMode(i)
+		}
 		if class == "tall" {
 			mode = []uint32{1025, 1026, 1024, 1025}[(i/tallEvery)%4]
 		}
@@ -195,6 +198,9 @@ func c09(c *Ctx) {
 		d2 := []map[uint32]bool{randDrops(rng, m1.NumDocs, 3)}
 		m2, _ := model.Merge([]*model.Seg{m1}, d2)
 		mode2 := modeFor(i+1, rng)
+		if class == "huge" {
+			mode2 = hugeMode(i + 1)
+		}
 		id := fmt.Sprintf("f%d", i)
 		if !c.Case(id, caseDesc{Class: class, Mode: mode, Docs: len(a.Docs), FP: fpString(a.Fingerprint() ^ b.Fingerprint()<<1), Extra: extra}) {
 			continue
